@@ -28,7 +28,15 @@ void* vp_buf(unsigned long n);
 void vp_buf_free(void* p);
 int vp_new_live(void);
 int vp_param(int k);
-void vp_fill_n(void* p, unsigned long n);   // concrete shape parameter k of the query
+void vp_fill_n(void* p, unsigned long n);
+// in-memory file model (rt module 'file'): one file, accessed through FILE* / file name
+unsigned char* vp_file_data(void);          // the file's bytes (harness may constrain / overwrite selected bytes before opening)
+unsigned long vp_file_size(void);           // current length (after writing: what was written)
+void vp_file_init(unsigned long len);       // file of exactly len bytes, every byte symbolic
+void vp_file_set_len(unsigned long len);
+struct _IO_FILE; struct _IO_FILE* vp_fopen_read(void); struct _IO_FILE* vp_fopen_write(void);
+const char* vp_file_name(void);             // name that fopen() maps to the model file
+int vp_file_is_open(void);   // concrete shape parameter k of the query
 }
 // symbolic int in [lo,hi]; one nondet call per statement so that evaluation order is fixed
 static inline int vp_range(int lo, int hi) { int v = vp_nondet_int(); vp_assume(v >= lo && v <= hi); return v; }
